@@ -105,6 +105,62 @@ def _check_log_args_pure(call: ast.Call, where: str):
             raise ExtractError(f"{where}: logger call with effectful argument")
 
 
+class _LoopifyReducers(ast.NodeTransformer):
+    """`return all(E for x in XS)` / `return any(E for x in XS)` whose element E calls a method of `self`
+    (i.e. may have effects or raise) is rewritten into the loop python executes anyway:
+
+        for x in XS:                      for x in XS:
+            if not E: return False            if E: return True
+        return True                       return False
+
+    Same evaluation order, same short-circuit, same exceptions.  The loop then takes an ordinary loop invariant."""
+
+    def __init__(self):
+        self.n = 0
+
+    def _rewrite(self, stmt):
+        v = stmt.value
+        if not (isinstance(v, ast.Call) and isinstance(v.func, ast.Name) and v.func.id in ("all", "any")
+                and len(v.args) == 1 and not v.keywords and isinstance(v.args[0], ast.GeneratorExp)):
+            return None
+        g = v.args[0]
+        if len(g.generators) != 1 or g.generators[0].ifs or g.generators[0].is_async:
+            return None
+        if not any(isinstance(c, ast.Call) and isinstance(c.func, ast.Attribute) and isinstance(c.func.value, ast.Name)
+                   and c.func.value.id == "self" for c in ast.walk(g.elt)):
+            return None
+        is_all = v.func.id == "all"
+        test = ast.UnaryOp(op=ast.Not(), operand=g.elt) if is_all else g.elt
+        loop = ast.For(target=g.generators[0].target, iter=g.generators[0].iter,
+                       body=[ast.If(test=test, body=[ast.Return(value=ast.Constant(value=not is_all))], orelse=[])],
+                       orelse=[], type_comment=None)
+        tail = ast.Return(value=ast.Constant(value=is_all))
+        for n_ in (loop, tail):
+            ast.copy_location(n_, stmt)
+            ast.fix_missing_locations(n_)
+        self.n += 1
+        return [loop, tail]
+
+    def _body(self, body):
+        out = []
+        for s_ in body:
+            s_ = self.visit(s_)
+            r = self._rewrite(s_) if isinstance(s_, ast.Return) and s_.value is not None else None
+            out.extend(r if r else [s_])
+        return out
+
+    def generic_visit(self, node):
+        super().generic_visit(node)
+        for fld in ("body", "orelse", "finalbody"):
+            b = getattr(node, fld, None)
+            if isinstance(b, list) and b and isinstance(b[0], ast.stmt):
+                setattr(node, fld, self._body(b))
+        if isinstance(node, ast.Try):
+            for h in node.handlers:
+                h.body = self._body(h.body)
+        return node
+
+
 class _Strip(ast.NodeTransformer):
     def __init__(self, where, dropped):
         self.where = where
@@ -177,6 +233,10 @@ def extract(target: str) -> Extracted:
                 sub.body = sub.body[1:] or [ast.Pass()]
     if st.nlog:
         dropped.append(f"{st.nlog} logger call statement(s) (A-log)")
+    lr = _LoopifyReducers()
+    lr.generic_visit(node2)
+    if lr.n:
+        dropped.append(f"rewritten: {lr.n} `return all/any(<generator calling self.*>)` as the equivalent short-circuit loop")
     is_async = isinstance(node, ast.AsyncFunctionDef)
     if is_async or any(isinstance(s, ast.Await) for s in ast.walk(node2)):
         dropped.append("async/await keywords (A-seq)")
